@@ -205,6 +205,16 @@ def notify(R, prog):
                describe=lambda ev: 'head returned only locked and re-validated (x == *ppt after x->lock.lock())', min_sites=1, what='return x')
 
 
+def indirect_null(R, prog):
+    G = K.build(R, prog, 'photon::indirect_lock', sig='volatile')
+    res = an.run(G, [an.LockTracker(), an.GuardTracker(lambda k: True)])
+    K.check_at(R, P + '.K6', G, res, lambda ev: ev.kind == 'return' and ev.depth == 0 and ev.f.const(ev.e['sub']) == 0,
+               require=lambda st, ev: ('G:x=F' in st or 'G:x == end=T' in st) and not an.has_lock(st, 'x->lock'),
+               key_fn=lambda ev: P + '.K6:photon::indirect_lock:null-only-if-queue-empty',
+               describe=lambda ev: 'nullptr ("nobody to wake") is returned only when the head pointer read was null/end, never after a failed re-validation',
+               min_sites=1, what='return nullptr')
+
+
 def translate(R, prog):
     G = K.build(R, prog, 'photon::waitq_translate_errno')
     f = G.root
@@ -224,4 +234,5 @@ def run(R, prog, tier):
     R.guard(wrappers, R, prog)
     R.guard(sleep_primitives, R, prog)
     R.guard(notify, R, prog)
+    R.guard(indirect_null, R, prog)
     R.guard(translate, R, prog)
